@@ -3,4 +3,13 @@ PROPS = {
     "C03": {"modules": ["RtrProps.C03"],
             "theorems": ["Rtr.C03.sync_success", "Rtr.C03.sync_failure", "Rtr.C03.others_untouched",
                          "Rtr.C03.forward_undo", "Rtr.C03.applied_membership"]},
+    "C05": {"modules": ["RtrProps.C05"],
+            "theorems": ["Rtr.C05.query_bytes", "Rtr.C05.connecting_query", "Rtr.C05.reset_query", "Rtr.C05.after_eod",
+                         "Rtr.C05.foreign_session_refused", "Rtr.C05.stable_until", "Rtr.C05.reset_causes"]},
+    "C13": {"modules": ["RtrProps.C13"],
+            "theorems": ["Rtr.C13.version_monotone", "Rtr.C13.version_supported", "Rtr.C13.step_version_le",
+                         "Rtr.C13.downgrade_first_pdu", "Rtr.C13.downgrade_error_report",
+                         "Rtr.C13.downgrade_error_report_reconnects", "Rtr.C13.downgrade_on_hangup",
+                         "Rtr.C13.mismatch_never_accepted", "Rtr.C13.mismatch_refused", "Rtr.C13.eod_format",
+                         "Rtr.C13.queries_carry_version"]},
 }
